@@ -271,6 +271,11 @@ pub fn replay(case: &Value) -> Vec<String> {
             }
             out
         }
-        _ => vec!["replay of this case kind: re-run `./check C19 quick` (the case is enumerated deterministically)".into()],
+        Some(kind) => {
+            // the remaining case kinds are enumerated deterministically: re-run the whole check and report its verdict
+            println!("replay of case kind '{kind}': re-running the C19 enumeration");
+            if run("quick") == 0 { vec![] } else { vec![format!("the C19 enumeration still reports violations (case kind {kind})")] }
+        }
+        None => vec![],
     }
 }
